@@ -82,7 +82,7 @@ pub fn seeds(entry: &str) -> Vec<Vec<u8>> {
     }
 }
 
-fn aux_for(entry: &str) -> Vec<&'static str> {
+pub fn aux_for(entry: &str) -> Vec<&'static str> {
     match entry {
         "multipart-parse" => vec!["XB", "--XB", "", "-", "B"],
         "range-spec" => vec!["10", "0", "18446744073709551615", "5"],
